@@ -24,7 +24,7 @@ ASSUMPTIONS = [
 ]
 GATES = ["events_checked", "mode0", "mode1", "mode2", "handler_calls_checked", "raise_resumed",
          "pos:crc", "pos:payload", "pos:straddle", "backend:buffered", "backend:pipe", "backend:makefile",
-         "backend:bytesio", "backend:socket"]
+         "backend:bytesio", "backend:socket", "raise_via_next", "raise_via_read"]
 
 
 def make_frames(rng, n):
@@ -93,10 +93,18 @@ def run_case(ctx, frames, damage, mode, handler, backend="file"):
         else:
             guard = 3 * len(frames) + 8
             after_exc = False
+            use_next = (len(data) + len(dmg)) % 2 == 1  # half of the raise-mode runs use next(reader)
+            ctx.hit("raise_via_next" if use_next else "raise_via_read")
             while guard > 0:
                 guard -= 1
                 try:
-                    raw, parsed = rdr.read()
+                    if use_next:
+                        try:
+                            raw, parsed = next(rdr)
+                        except StopIteration:
+                            break
+                    else:
+                        raw, parsed = rdr.read()
                 except libs as e:
                     events.append(("raised", type(e).__name__))
                     after_exc = True
